@@ -106,7 +106,7 @@ def run(replay=None):
         direct_a = lat(a) == a
         direct_b = lat(b) == b
         for j, c in enumerate(cs):
-            v = [sc.fbits(tv, float(1 + j * m + q)) for q in range(m)]
+            v = [sc.fbits(tv, float(1 + j * m + q) + 1.0 / 3.0) for q in range(m)]   # not representable in the narrower format: a detour through float shows
             vals[tuple(c)] = v
         if direct_a:
             for c in cs:
